@@ -885,9 +885,12 @@ class Interp:
     def stmt_Assert(self, node, env):
         cond = self.truth(self.eval(node.test, env))
         if isinstance(cond, bool):
-            if not cond:
+            if cond:
+                return
+            if not self.ctx.generic:
                 raise PyRaise(AssertionError, (), node)
-            return
+            # certainly false, but inside a generic iteration: it only fails if the iteration happens at all
+            cond = z3.BoolVal(False)
         if self.ctx.generic:
             self.ctx.may_raise.append((AssertionError, self.ctx.assumptions() + [z3.Not(cond)], node, 'assert',
                                        list(self.ctx.all_binders())))
